@@ -44,7 +44,15 @@ var c19Raw = []string{``, `null`, `{}`, `[]`, `"x"`, `{"headers":null}`, `{"head
 	`{"type":"props.SUser","key":"k","value":[1],"headers":{"operation":"update"}}`, `{"type":"props.SUser","key":"k","headers":{"operation":"insert"}}`,
 	`{"type":"props.SUser","key":"k","value":null,"headers":{"operation":"insert"}}`, `{"type":"props.SOrder","key":7,"headers":{"operation":"delete"}}`,
 	`{"type":"props.SUser","key":"k","value":{"name":"x"},"headers":{"operation":"explode"}}`, `{"type":"props.SUser","key":"k","value":{"name":"x"},"headers":[]}`,
-	"\x00\xff\xfe", `{"type":"props.SUser","key":"k","value":{"name":"x"},"headers":{"operation":"insert"}`, `{"headers":{"control":"reset"}}garbage`}
+	"\x00\xff\xfe", `{"type":"props.SUser","key":"k","value":{"name":"x"},"headers":{"operation":"insert"}`, `{"headers":{"control":"reset"}}garbage`,
+	// control headers that are not well-formed, alone and as stray members of a change message
+	`{"headers":{"control":"reset","offset":123}}`, `{"headers":{"control":"reset","offset":"7"}}`, `{"headers":{"control":"reset","offset":null}}`,
+	`{"headers":{"control":"snapshot-start","offset":["x"]}}`, `{"headers":{"Control":"reset","OFFSET":{}}}`,
+	`{"type":"props.SUser","key":"k2","value":{"name":"stray"},"headers":{"operation":"insert","control":"reset","offset":7}}`,
+	`{"type":"props.SUser","key":"k2","value":{"name":"stray"},"headers":{"operation":"insert","control":"reset"}}`,
+	`{"type":"props.SUser","key":"k2","value":{"name":"x"},"headers":{"operation":"insert","txid":5}}`,
+	`{"type":"props.SOrder","key":"k","value":{"total":1},"headers":{"operation":"update","timestamp":false}}`,
+	`{"type":"props.SOrder","key":"k","value":{"total":1},"old_value":17,"headers":{"operation":"update"}}`}
 
 func genC19(rt *rapid.T) core.Scenario {
 	sc := &C19Scenario{Store: StoreCfg{Kind: rapid.SampledFrom([]string{"mem", "mem", "sqlite", "ds"}).Draw(rt, "store")}}
@@ -60,7 +68,7 @@ func genC19(rt *rapid.T) core.Scenario {
 			m.Type = rapid.SampledFrom([]string{"custom", "-", "props.SUser"}).Draw(rt, "typeName")
 		}
 		if rapid.IntRange(0, 2).Draw(rt, "corrupt") == 2 {
-			m.Corrupt = rapid.SampledFrom([]string{"flip", "truncate", "torn", "swap", "raw", "raw"}).Draw(rt, "corruption")
+			m.Corrupt = rapid.SampledFrom([]string{"flip", "truncate", "torn", "swap", "raw", "raw", "hdr", "hdr"}).Draw(rt, "corruption")
 			m.At = rapid.IntRange(0, 200).Draw(rt, "at")
 			if m.Corrupt == "raw" {
 				if rapid.Bool().Draw(rt, "rawFromList") {
@@ -159,6 +167,20 @@ func corruptBytes(data []byte, m C19Msg, other []byte) []byte {
 		return other
 	case "raw":
 		return []byte(m.Raw)
+	case "hdr":
+		// a well-formed message whose headers gain (or have replaced) one or two members, some ill-typed
+		var doc map[string]json.RawMessage
+		var hdr map[string]json.RawMessage
+		if json.Unmarshal(data, &doc) != nil || json.Unmarshal(doc["headers"], &hdr) != nil || hdr == nil {
+			return data
+		}
+		extra := [][2]string{{"control", `"reset"`}, {"offset", `7`}, {"offset", `"o"`}, {"control", `5`}, {"control", `null`}, {"txid", `5`},
+			{"operation", `"insert"`}, {"operation", `7`}, {"timestamp", `false`}, {"control", `"snapshot-end"`}, {"Offset", `[]`}, {"control", `""`}}
+		a, b := extra[m.At%len(extra)], extra[(m.At/len(extra))%len(extra)]
+		hdr[a[0]] = json.RawMessage(a[1])
+		hdr[b[0]] = json.RawMessage(b[1])
+		doc["headers"] = mustJSON(hdr)
+		return mustJSON(doc)
 	}
 	return data
 }
@@ -170,24 +192,40 @@ func c19Model(cur map[string]string, data []byte, known map[string]string) (next
 	for k, v := range cur {
 		next[k] = v
 	}
-	// decoded with Go's JSON rules (member names match case-insensitively, as for any Go consumer of the protocol)
+	// Decoded with Go's JSON rules (member names match case-insensitively, as for any Go consumer of the
+	// protocol) into the protocol's TYPED members. A document is a control message only if its headers are
+	// well-formed control headers (control and offset both strings) naming a control; otherwise it is read as
+	// a change message, whose own members (type, key: strings; headers.operation/txid/timestamp: strings)
+	// must be well-typed for it to be applicable. A malformed header must never be acted upon.
+	var top struct {
+		Headers json.RawMessage `json:"headers"`
+	}
+	if json.Unmarshal(data, &top) != nil {
+		return cur, false
+	}
+	var ctrl struct {
+		Control string `json:"control"`
+		Offset  string `json:"offset"`
+	}
+	if json.Unmarshal(top.Headers, &ctrl) == nil && ctrl.Control != "" {
+		if ctrl.Control == "reset" {
+			return map[string]string{}, true
+		}
+		return next, true // snapshot markers and unknown controls change nothing
+	}
 	var msg struct {
-		Type    string          `json:"type"`
-		Key     string          `json:"key"`
-		Value   json.RawMessage `json:"value"`
-		Headers struct {
+		Type     string          `json:"type"`
+		Key      string          `json:"key"`
+		Value    json.RawMessage `json:"value"`
+		OldValue json.RawMessage `json:"old_value"`
+		Headers  struct {
 			Operation string `json:"operation"`
-			Control   string `json:"control"`
+			TxID      string `json:"txid"`
+			Timestamp string `json:"timestamp"`
 		} `json:"headers"`
 	}
 	if json.Unmarshal(data, &msg) != nil {
 		return cur, false
-	}
-	if msg.Headers.Control != "" {
-		if msg.Headers.Control == "reset" {
-			return map[string]string{}, true
-		}
-		return next, true // snapshot markers and unknown controls change nothing
 	}
 	coll, registered := known[msg.Type]
 	if !registered {
